@@ -109,12 +109,15 @@ def main(argv=None):
                solver_s=0.0, realisations=0, exc_paths=0)
     viol, inc, mism, khits, funcs, samples = [], [], [], {}, set(), []
     per_h = {}
+    extra_w = dict(diverse=0, boundary=0)
     for r in results:
         for k in agg:
             agg[k] += r[k]
         ph = per_h.setdefault(r["harness"], dict(skeletons=0, paths=0, obligations=0, discharged=0, wall_s=0.0))
         ph["skeletons"] += 1; ph["paths"] += r["paths"]; ph["obligations"] += r["obligations"]
         ph["discharged"] += r["discharged"]; ph["wall_s"] = round(ph["wall_s"] + r["wall_s"], 2)
+        extra_w["diverse"] += r.get("diverse_witnesses", 0)
+        extra_w["boundary"] += r.get("boundary_witnesses", 0)
         for v in r["violations"]:
             viol.append((r, v))
         for i in r["inconclusive"]:
@@ -179,6 +182,10 @@ def main(argv=None):
             coverage=dict(
                 states=max(agg["paths"], 1), transitions=max(agg["decisions"], 1),
                 traces_validated_against_impl=agg["witnesses_ok"], samples=samples or [dict(note="no paths")],
+                further_members_replayed=dict(extra_w, note="besides the solver's model of each path: a member whose inputs of equal range take "
+                                              "pairwise different values where the path allows it (diverse), and members with every integer input "
+                                              "at its upper / lower bound in the harnesses that ask for it (boundary); each was run on the real "
+                                              "code and compared with the symbolic outcome"),
                 obligations=agg["obligations"], discharged=agg["discharged"], undecided=len(inc),
                 queries=agg["queries"] + agg["proof_queries"], solver_s=round(agg["solver_s"], 2),
                 skeletons=total_skel, exception_paths=agg["exc_paths"], realisations=agg["realisations"],
@@ -187,7 +194,8 @@ def main(argv=None):
                 exhaustive=(code == 0 and not a.only and not a.max_skel),
                 explanation="each state is one feasible path of the real bionumpy code executed over z3 terms; each "
                             "obligation is PC => post decided by z3 (unsat of PC and not post); every path has a model "
-                            "replayed on the unmodified library (plain NumPy) and compared with the symbolic outcome"),
+                            "replayed on the unmodified library (plain NumPy) and compared with the symbolic outcome, and a second, "
+                            "diverse member of the path where one exists"),
             assumptions=sorted(set(list(h_assump) + [
                 "symnp scalar/array semantics equal NumPy's on the operations used (validated per path by witness replay)",
                 "64-bit integer overflow not modelled (except abs(int64.min))",
